@@ -37,6 +37,8 @@ const DRIVER: i64 = -9;
 struct Ev {
     seq: u64,
     th: i64,
+    /// generation: which start() created the task channel this thread works on (caller: starts so far)
+    g: i64,
     ev: &'static str,
     a: i64,
     b: i64,
@@ -44,7 +46,7 @@ struct Ev {
 
 impl Ev {
     fn json(&self) -> Value {
-        json!({"seq": self.seq, "th": self.th, "ev": self.ev, "a": self.a, "b": self.b})
+        json!({"seq": self.seq, "th": self.th, "g": self.g, "ev": self.ev, "a": self.a, "b": self.b})
     }
 }
 
@@ -54,6 +56,10 @@ struct St {
     events: Vec<Ev>,
     seq: u64,
     cur_task: i64,
+    /// identity of a task channel (address of its Arc, reported by Pool_Chan) -> generation
+    chan_gen: HashMap<i64, i64>,
+    thread_gen: HashMap<std::thread::ThreadId, i64>,
+    cur_gen: i64,
     pending: HashMap<i64, VecDeque<usize>>,
     parked: HashMap<i64, usize>,
     permits: HashMap<i64, u32>,
@@ -113,10 +119,44 @@ fn spin(n: u64) {
 
 /// The callback: runs on the thread that reached the point. Must never panic (it is also called
 /// from PanicMarker::drop during unwinding).
+/// Key of a thread in the gate tables: the caller is one thread; workers and recovery threads are told apart
+/// by generation (worker ids repeat after a restart).
+fn key(th: i64, g: i64) -> i64 {
+    if th == CALLER {
+        CALLER
+    } else {
+        g * 1000 + th
+    }
+}
+
 fn record(name: &'static str, a: i64, b: i64) {
     let th = thread_key();
+    let tid = std::thread::current().id();
     let h = hh();
     let mut st = lock();
+    // points that only say which task channel (= which start()) a thread belongs to; not logged
+    match name {
+        "Pool_Chan" => {
+            st.cur_gen += 1;
+            let g = st.cur_gen;
+            st.chan_gen.insert(a, g);
+            h.cv.notify_all();
+            return;
+        }
+        "Worker_Spawned" => {
+            let g = st.chan_gen.get(&b).copied().unwrap_or(0);
+            st.thread_gen.insert(tid, g);
+            return;
+        }
+        "Rec_Chan" => {
+            let g = st.chan_gen.get(&a).copied().unwrap_or(0);
+            st.thread_gen.insert(tid, g);
+            return;
+        }
+        _ => {}
+    }
+    let g = if th == CALLER { st.cur_gen } else { st.thread_gen.get(&tid).copied().unwrap_or(0) };
+    let k = key(th, g);
     if st.events.len() >= MAX_EVENTS {
         st.flood = true;
         h.cv.notify_all();
@@ -128,24 +168,24 @@ fn record(name: &'static str, a: i64, b: i64) {
     st.seq += 1;
     let seq = st.seq;
     let idx = st.events.len();
-    st.events.push(Ev { seq, th, ev: name, a, b });
+    st.events.push(Ev { seq, th, g, ev: name, a, b });
     if st.gated {
-        st.pending.entry(th).or_default().push_back(idx);
+        st.pending.entry(k).or_default().push_back(idx);
         h.cv.notify_all();
         if parks(name, b) {
-            st.parked.insert(th, idx);
+            st.parked.insert(k, idx);
             loop {
                 if !st.gated {
                     break;
                 }
-                let p = st.permits.entry(th).or_insert(0);
+                let p = st.permits.entry(k).or_insert(0);
                 if *p > 0 {
                     *p -= 1;
                     break;
                 }
                 st = h.cv.wait(st).unwrap_or_else(|e| e.into_inner());
             }
-            st.parked.remove(&th);
+            st.parked.remove(&k);
         }
     } else {
         let r = mix(st.perturb_seed, seq);
@@ -165,7 +205,8 @@ fn driver_event(name: &'static str, a: i64, b: i64) {
     let mut st = lock();
     st.seq += 1;
     let seq = st.seq;
-    st.events.push(Ev { seq, th: DRIVER, ev: name, a, b });
+    let g = st.cur_gen;
+    st.events.push(Ev { seq, th: DRIVER, g, ev: name, a, b });
 }
 
 fn live_workers() -> usize {
@@ -198,9 +239,10 @@ fn total_threads() -> usize {
 /// kind: 0 return, 1 panic, 2 spin, 3 sleep, 4 spin then panic, 5 sleep then panic,
 /// 6 barrier: wait until `barrier` task bodies are running at the same time (a pool with that many threads must
 /// get there: "up to N tasks run at the same time"); gives up after the escalating waits and reports
-/// Barrier_Timeout, which no action of the model explains
+/// Barrier_Timeout, which no action of the model explains,
+/// 7 / 8: wait until start() has been called `work` times (a task that spans a restart), then panic / return
 fn panics(kind: u8) -> bool {
-    matches!(kind, 1 | 4 | 5)
+    matches!(kind, 1 | 4 | 5 | 7)
 }
 
 struct Counters {
@@ -244,6 +286,13 @@ fn make_task(t: i64, kind: u8, work: u64, c: Arc<Counters>) -> impl FnOnce() + S
                         record("Barrier_Timeout", t, c.arrived.load(Ordering::SeqCst) as i64);
                         break;
                     }
+                    std::thread::sleep(Duration::from_micros(50));
+                }
+            }
+            7 | 8 => {
+                let t0 = Instant::now();
+                let total: u64 = WAITS.iter().sum();
+                while lock().cur_gen < work as i64 && t0.elapsed() < Duration::from_secs(total) {
                     std::thread::sleep(Duration::from_micros(50));
                 }
             }
@@ -356,7 +405,7 @@ fn wait_quiescent(expected: usize, submitted: usize, c: &Counters) -> Result<(),
             let markers = st.events.iter().filter(|e| e.ev == "Marker_Send").count();
             let respawns = st.events.iter().filter(|e| e.ev == "Rec_Respawn").count();
             markers == respawns
-                && st.events.iter().enumerate().filter(|(_, e)| e.ev == "Rec_Respawn").all(|(i, e)| st.events[i + 1..].iter().any(|f| f.th == e.a && f.ev == "Worker_Loop"))
+                && st.events.iter().enumerate().filter(|(_, e)| e.ev == "Rec_Respawn").all(|(i, e)| st.events[i + 1..].iter().any(|f| f.th == e.a && f.g == e.g && f.ev == "Worker_Loop"))
         };
         let entered = (1..=submitted).all(|t| c.ran(t) >= 1);
         let threads = total_threads();
@@ -384,6 +433,9 @@ fn reset_state(gated: bool, perturb_seed: u64, perturb_pct: u64) {
     st.permits.clear();
     st.cret = 0;
     st.cur_task = 0;
+    st.chan_gen.clear();
+    st.thread_gen.clear();
+    st.cur_gen = 0;
     st.perturb_seed = perturb_seed;
     st.perturb_pct = perturb_pct;
     st.flood = false;
@@ -392,7 +444,7 @@ fn reset_state(gated: bool, perturb_seed: u64, perturb_pct: u64) {
 fn flush_run(out: &mut std::fs::File, n: usize, tasks: usize, pan: &[i64]) {
     let st = lock();
     let mut buf = String::new();
-    buf.push_str(&json!({"seq": 0, "th": DRIVER, "ev": "Reset", "a": n, "b": tasks, "p": pan}).to_string());
+    buf.push_str(&json!({"seq": 0, "th": DRIVER, "g": 0, "ev": "Reset", "a": n, "b": tasks, "p": pan}).to_string());
     buf.push('\n');
     let keep = if st.flood { 3000 } else { st.events.len() };
     let last = st.events.len().saturating_sub(1);
@@ -426,11 +478,22 @@ fn random_mode(args: &[String]) {
     let mut fingerprints: Vec<String> = Vec::new();
     let mut monitored_runs = 0usize;
     let mut barrier_runs = 0usize;
+    let mut restart_runs = 0usize;
     for run in 0..runs {
         let n = if rng.chance(1, 2) { rng.range(1, 3.min(max_n)) } else { rng.range(1, max_n) };
         let started = !rng.chance(1, 25);
+        // one started run in three restarts the pool: (start execute* [stop]) two or three times, then drop
+        let segments = if !started {
+            0
+        } else if rng.chance(1, 3) {
+            rng.range(2, 3)
+        } else {
+            1
+        };
         let tasks = if !started {
             0
+        } else if segments > 1 {
+            rng.range(1, 24.min(max_t))
         } else {
             match rng.below(10) {
                 0 => 0,
@@ -440,7 +503,7 @@ fn random_mode(args: &[String]) {
             }
         };
         // one run in eight: exactly n tasks that all wait for each other - only n-fold parallelism gets them through
-        let barrier_run = started && rng.chance(1, 8);
+        let barrier_run = segments == 1 && rng.chance(1, 8);
         let tasks = if barrier_run { n } else { tasks };
         let panic_pct = *rng.pick(&[0usize, 0, 10, 25, 50, 100]);
         let mut kinds: Vec<u8> = vec![0; tasks + 1];
@@ -461,8 +524,32 @@ fn random_mode(args: &[String]) {
                 kinds[t] = 6;
             }
         }
+        // which segment each task is submitted in (non-decreasing); in a segment that is followed by another
+        // start, up to two tasks SPAN the restart: they wait for the next start() and then panic (7) or return (8)
+        let mut seg_of: Vec<usize> = vec![1; tasks + 1];
+        let mut spanning = vec![false; segments + 1];
+        if segments > 1 {
+            let mut cuts: Vec<usize> = (1..segments).map(|_| rng.range(0, tasks)).collect();
+            cuts.sort();
+            for t in 1..=tasks {
+                seg_of[t] = 1 + cuts.iter().filter(|c| **c < t).count();
+            }
+            for sg in 1..segments {
+                let mine: Vec<usize> = (1..=tasks).filter(|t| seg_of[*t] == sg).collect();
+                if mine.is_empty() || rng.chance(1, 4) {
+                    continue;
+                }
+                for k in 0..rng.range(1, 2.min(mine.len())) {
+                    let t = mine[k];
+                    kinds[t] = if rng.chance(2, 3) { 7 } else { 8 };
+                    works[t] = (sg + 1) as u64;
+                    spanning[sg] = true;
+                }
+            }
+        }
         let pan: Vec<i64> = (1..=tasks).filter(|t| panics(kinds[*t])).map(|t| t as i64).collect();
-        let stop = started && rng.chance(1, 2);
+        let stops: Vec<bool> = (0..=segments).map(|_| rng.chance(1, 2)).collect();
+        let stop = segments > 0 && stops[segments];
         let wait_before = rng.below(3); // 0: none, 1: all tasks done, 2: short pause
         let pause_mid = rng.below(3);
         let perturb_pct = *rng.pick(&[0u64, 5, 20, 50]);
@@ -472,14 +559,15 @@ fn random_mode(args: &[String]) {
             counters.barrier.store(n as u32, Ordering::SeqCst);
             barrier_runs += 1;
         }
+        if segments > 1 {
+            restart_runs += 1;
+        }
         let kinds_a = Arc::new(kinds.clone());
         let (tx, caller) = spawn_caller(counters.clone(), kinds_a);
-        if started {
-            recovery_threads += 1;
-        }
-        // a third of the runs also listens to Humphrey's own monitor stream (hook-free second source):
-        // the number of ThreadRestarted events per worker id must equal the model's incarnation counter
-        let monitored = started && rng.chance(1, 3);
+        recovery_threads += segments;
+        // a third of the runs without restart also listens to Humphrey's own monitor stream (hook-free second
+        // source): the number of ThreadRestarted events per worker id must equal the model's incarnation counter
+        let monitored = segments == 1 && rng.chance(1, 3);
         let (mon_tx, mon_rx) = channel::<Event>();
         let monitor = if monitored {
             Some(MonitorConfig::new(mon_tx).with_subscription_to(EventType::ThreadRestarted))
@@ -488,9 +576,13 @@ fn random_mode(args: &[String]) {
             None
         };
         let mut cmds: Vec<Cmd> = vec![Cmd::New(n, monitor)];
-        if started {
+        let mut script = String::new();
+        for sg in 1..=segments {
             cmds.push(Cmd::Start);
-            for t in 1..=tasks {
+            script.push_str("start ");
+            let mut any = false;
+            for t in (1..=tasks).filter(|t| seg_of[*t] == sg) {
+                any = true;
                 cmds.push(Cmd::Exec(t as i64, kinds[t], works[t]));
                 match rng.below(8) {
                     0 => cmds.push(Cmd::Yield),
@@ -498,13 +590,18 @@ fn random_mode(args: &[String]) {
                     _ => {}
                 }
             }
+            if any {
+                script.push_str("execute* ");
+            }
+            let last_of_seg = (1..=tasks).filter(|t| seg_of[*t] <= sg).count();
             match wait_before {
-                1 => cmds.push(Cmd::WaitTasks(tasks)),
+                1 if !spanning[sg] => cmds.push(Cmd::WaitTasks(last_of_seg)),
                 2 => cmds.push(Cmd::Pause(rng.range(1, 2000) as u64)),
                 _ => {}
             }
-            if stop {
+            if stops[sg] {
                 cmds.push(Cmd::Stop);
+                script.push_str("stop ");
                 match pause_mid {
                     1 => cmds.push(Cmd::Pause(rng.range(1, 2000) as u64)),
                     2 => cmds.push(Cmd::Yield),
@@ -513,18 +610,14 @@ fn random_mode(args: &[String]) {
             }
         }
         cmds.push(Cmd::Drop);
+        script.push_str("drop");
         let ncmds = cmds.len() as u64;
         let drop_index = ncmds - 1;
         for c in cmds {
             tx.send(c).ok();
         }
-        let script = format!(
-            "{}{}{}drop",
-            if started { "start " } else { "" },
-            if tasks > 0 { "execute* " } else { "" },
-            if stop { "stop " } else { "" }
-        );
-        let shape = format!("n={} {} wait={} panics={}", n.min(4), script, wait_before, if pan.is_empty() { 0 } else if pan.len() == tasks { 2 } else { 1 });
+        let shape = format!("n={} {} wait={} panics={} span={}", n.min(4), script, wait_before,
+                            if pan.is_empty() { 0 } else if pan.len() == tasks { 2 } else { 1 }, spanning.iter().filter(|x| **x).count());
         // the caller must get through its script, in particular through drop
         if let Err(waited) = wait_until(|st| st.cret >= ncmds) {
             let cret = lock().cret;
@@ -585,7 +678,7 @@ fn random_mode(args: &[String]) {
             let st = lock();
             let mut bytes = Vec::with_capacity(st.events.len() * 8);
             for e in &st.events {
-                bytes.extend_from_slice(format!("{}:{}:{}:{};", e.th, e.ev, e.a, e.b).as_bytes());
+                bytes.extend_from_slice(format!("{}.{}:{}:{}:{};", e.g, e.th, e.ev, e.a, e.b).as_bytes());
             }
             fingerprints.push(format!("{:016x}", fnv64(&bytes)));
         }
@@ -602,7 +695,7 @@ fn random_mode(args: &[String]) {
     }
     out_line(&json!({"summary": true, "mode": "random", "runs": runs_done, "events": total_events, "tasks": total_tasks,
                      "panicking_tasks": total_panics, "distinct_shapes": shapes.len(), "hang": hang, "samples": samples, "fingerprints": fingerprints,
-                     "monitored_runs": monitored_runs, "barrier_runs": barrier_runs}));
+                     "monitored_runs": monitored_runs, "barrier_runs": barrier_runs, "restart_runs": restart_runs}));
     std::process::exit(0);
 }
 
@@ -675,7 +768,7 @@ fn may_be_early(name: &str) -> bool {
 
 struct Proj {
     cpc: String,
-    wpc: Vec<String>,
+    wpc: Vec<Vec<String>>, // [generation - 1][worker]
     ran: Vec<i64>,
     done: Vec<i64>,
 }
@@ -686,6 +779,7 @@ fn run_behaviour(id: i64, b: &Value, out: &mut std::fs::File, recovery_threads: 
     let pan_flags: Vec<bool> = b["pan"].as_array().unwrap().iter().map(|x| x.as_bool().unwrap()).collect();
     let pan: Vec<i64> = (1..=tasks).filter(|t| pan_flags[*t - 1]).map(|t| t as i64).collect();
     let complete = b["complete"].as_bool().unwrap_or(false);
+    let gens = b["gens"].as_u64().unwrap_or(1) as usize;
     let steps = b["steps"].as_array().unwrap();
     let mut kinds = vec![0u8; tasks + 1];
     for t in 1..=tasks {
@@ -701,7 +795,7 @@ fn run_behaviour(id: i64, b: &Value, out: &mut std::fs::File, recovery_threads: 
         *sent += 1;
     };
     send(Cmd::New(n, None), &mut sent);
-    let mut proj = Proj { cpc: "new".into(), wpc: vec!["absent".into(); n], ran: vec![0; tasks], done: vec![0; tasks] };
+    let mut proj = Proj { cpc: "new".into(), wpc: vec![vec!["absent".into(); n]; gens], ran: vec![0; tasks], done: vec![0; tasks] };
     let mut fail: Option<Value> = None;
     let mut done_steps = 0usize;
     let mut last_cpc = String::from("new");
@@ -710,6 +804,10 @@ fn run_behaviour(id: i64, b: &Value, out: &mut std::fs::File, recovery_threads: 
         let a = s["a"].as_str().unwrap();
         let w = s["w"].as_i64().unwrap();
         let x = s["x"].as_i64().unwrap();
+        let g = s["g"].as_i64().unwrap_or(1);
+        let gi = (g.max(1) - 1) as usize;
+        let wk = key(w, g);
+        let rk = key(RECOVERY, g);
         macro_rules! fail {
             ($kind:expr, $detail:expr) => {{
                 fail = Some(json!({"kind": $kind, "step": i, "action": a, "w": w, "x": x, "detail": $detail}));
@@ -746,7 +844,7 @@ fn run_behaviour(id: i64, b: &Value, out: &mut std::fs::File, recovery_threads: 
                 expect!(CALLER, "Pool_Start", false, Some(x), None);
                 caller_returns!();
                 for k in 0..n {
-                    proj.wpc[k] = "idle".into();
+                    proj.wpc[gi][k] = "idle".into();
                 }
                 proj.cpc = "started".into();
             }
@@ -780,43 +878,43 @@ fn run_behaviour(id: i64, b: &Value, out: &mut std::fs::File, recovery_threads: 
                 proj.cpc = "done".into();
             }
             "Worker_Lock" => {
-                expect!(w, "Worker_Lock", true, Some(w), Some(x));
-                proj.wpc[w as usize] = if x == 0 { "recv".into() } else { "exited".into() };
+                expect!(wk, "Worker_Lock", true, Some(w), Some(x));
+                proj.wpc[gi][w as usize] = if x == 0 { "recv".into() } else { "exited".into() };
             }
             "Worker_Recv" => {
-                expect!(w, "Worker_Recv", true, Some(w), Some(x));
-                proj.wpc[w as usize] = if x == 0 { "got".into() } else { "exited".into() };
+                expect!(wk, "Worker_Recv", true, Some(w), Some(x));
+                proj.wpc[gi][w as usize] = if x == 0 { "got".into() } else { "exited".into() };
             }
             "Worker_Run" => {
-                expect!(w, "Task_Start", true, Some(x), None);
-                proj.wpc[w as usize] = "run".into();
+                expect!(wk, "Task_Start", true, Some(x), None);
+                proj.wpc[gi][w as usize] = "run".into();
                 proj.ran[x as usize - 1] += 1;
             }
             "Worker_Finish" => {
-                expect!(w, "Task_End", true, Some(x), None);
-                proj.wpc[w as usize] = "idle".into();
+                expect!(wk, "Task_End", true, Some(x), None);
+                proj.wpc[gi][w as usize] = "idle".into();
                 proj.done[x as usize - 1] += 1;
             }
             "Worker_Panic" => {
-                expect!(w, "Marker_Send", true, Some(w), None);
+                expect!(wk, "Marker_Send", true, Some(w), None);
                 // the send itself happens between the two points: wait for it, so that the order of the
                 // recovery channel is the order of the model's Worker_Panic steps
-                expect!(w, "Marker_Sent", false, Some(w), None);
-                proj.wpc[w as usize] = "unwinding".into();
+                expect!(wk, "Marker_Sent", false, Some(w), None);
+                proj.wpc[gi][w as usize] = "unwinding".into();
             }
             "Worker_Die" => {}
             "Rec_Wake" => {
-                expect!(RECOVERY, "Rec_Wake", true, Some(w), None);
+                expect!(rk, "Rec_Wake", true, Some(w), None);
             }
             "Rec_Recv" => {
-                expect!(RECOVERY, "Rec_Recv", true, Some(w), None);
+                expect!(rk, "Rec_Recv", true, Some(w), None);
             }
             "Rec_Join" => {
-                expect!(RECOVERY, "Rec_Joined", true, Some(w), Some(x));
+                expect!(rk, "Rec_Joined", true, Some(w), Some(x));
             }
             "Rec_Respawn" => {
-                expect!(RECOVERY, "Rec_Respawn", true, Some(w), None);
-                proj.wpc[w as usize] = "idle".into();
+                expect!(rk, "Rec_Respawn", true, Some(w), None);
+                proj.wpc[gi][w as usize] = "idle".into();
             }
             other => fail!("harness", format!("unknown action {}", other)),
         }
@@ -839,7 +937,8 @@ fn run_behaviour(id: i64, b: &Value, out: &mut std::fs::File, recovery_threads: 
         }
         // projected state after the step
         if let Some(ms) = s.get("s") {
-            let mw: Vec<String> = ms["wpc"].as_array().unwrap().iter().map(|v| v.as_str().unwrap().replace("dead", "unwinding")).collect();
+            let mw: Vec<Vec<String>> = ms["wpc"].as_array().unwrap().iter()
+                .map(|gv| gv.as_array().unwrap().iter().map(|v| v.as_str().unwrap().replace("dead", "unwinding")).collect()).collect();
             let mr: Vec<i64> = ms["ran"].as_array().unwrap().iter().map(|v| v.as_i64().unwrap()).collect();
             let md: Vec<i64> = ms["done"].as_array().unwrap().iter().map(|v| v.as_i64().unwrap()).collect();
             let mc = ms["cpc"].as_str().unwrap();
@@ -865,7 +964,12 @@ fn run_behaviour(id: i64, b: &Value, out: &mut std::fs::File, recovery_threads: 
             match last_cpc.as_str() {
                 "new" | "stopped" => send(Cmd::Drop, &mut sent),
                 "started" => {
-                    if id % 2 == 0 {
+                    let with_stop = match b["finish"].as_str() {
+                        Some("stop") => true,
+                        Some("drop") => false,
+                        _ => id % 2 == 0,
+                    };
+                    if with_stop {
                         send(Cmd::Stop, &mut sent);
                     }
                     send(Cmd::Drop, &mut sent);
